@@ -2070,9 +2070,15 @@ static void get_user_data (interactive_t* ip, io_event_t* evt) {
                 if (!(ob->flags & O_DESTRUCTED))
                   {
                     push_malloced_string (str);
-                    apply (APPLY_PROCESS_INPUT, ob, 1, ORIGIN_DRIVER);
-                    if (!IP_VALID (ip, ob))
+                    /* A runtime error in process_input() must not throw us out of
+                     * this loop (and out of process_io()): the complete lines
+                     * that follow in the buffer would stay there until the
+                     * client happens to send something else.
+                     */
+                    safe_apply (APPLY_PROCESS_INPUT, ob, 1, ORIGIN_DRIVER);
+                    if (!is_interactive_user (ip))
                       return;	/* process_input() got rid of the connection */
+                    ob = ip->ob;	/* exec() may have moved it to another object */
                   }
                 else
                   FREE_MSTR (str);
@@ -2103,7 +2109,7 @@ static void get_user_data (interactive_t* ip, io_event_t* evt) {
             buffer = allocate_buffer (num_bytes);
             memcpy (buffer->item, buf, num_bytes);
             push_refed_buffer (buffer);
-            apply (APPLY_PROCESS_INPUT, ip->ob, 1, ORIGIN_DRIVER);
+            safe_apply (APPLY_PROCESS_INPUT, ip->ob, 1, ORIGIN_DRIVER);
             break;
           }
         }
